@@ -323,6 +323,13 @@ add("C08", "fixed", "outcome-altered:output_stream_limit:escapes-UnicodeEncodeEr
     "with any output_stream_limit configured, writing a string with a lone surrogate raised UnicodeEncodeError (neither the unlimited result nor a ResourceLimitError)",
     [{"source": "{{ s }}", "partials": {}, "data": V.enc({"s": "\ud800", "xs": [1]})}, {"source": "a{{ s }}b{{ s }}", "partials": {}, "data": V.enc({"s": "x\udfffy", "xs": [1]})}], "51937a8")
 
+# ----------------------------------------------------------------------------- C01 open (found by the thorough tier once C01 rendered extends chains)
+add("C01", "open", "render-differs:python-stack-exhausted-on-one-side:extends-blocks",
+    "block definitions that re-enter each other through block.super (x{ y{ super } } over y{ x{} }) recurse until something stops them: the synchronous renderer reaches the context depth "
+    "limit (ContextDepthError, or a suppressed error in warn mode) while the asynchronous renderer, which needs more Python frames per level, runs out of stack first and lets RecursionError "
+    "escape. Same root cause as C09's open stack-exhaustion findings; not repaired for the reason given there",
+    json.load(open(os.path.join(VERIF, "tools", "witnesses", "C01-stack.json"))))
+
 if __name__ == "__main__":
     # further entries are appended by tools/mkfindings.py from triaged replay files and kept in findings_extra.json
     extra_path = os.path.join(VERIF, "tools", "findings_extra.json")
